@@ -63,6 +63,51 @@ def cdictj(d, ty="(str * json)") -> str:
     return clist([ctuple(cstr(k), cjson(v)) for k, v in d.items()], ty)
 
 
+def cpval(v) -> str:
+    """A value held by a request parameter container: Model pval (a JSON value or a Python float by its repr)."""
+    if isinstance(v, float):
+        return f"(PFloat {cstr(repr(v))})"
+    return f"(PJ {cjson(v)})"
+
+
+def cdictp(d) -> str:
+    return clist([ctuple(cstr(k), cpval(v)) for k, v in d.items()], "(str * pval)")
+
+
+def has_float(x) -> bool:
+    if isinstance(x, float):
+        return True
+    if isinstance(x, (list, tuple)):
+        return any(has_float(i) for i in x)
+    if isinstance(x, dict):
+        return any(has_float(i) for i in x.values())
+    return False
+
+
+def model_applicable(c: dict) -> bool:
+    """Common.Json has no floats: a float is representable only as a direct value of a parameter container (pval)."""
+    if has_float(c["body"]) or has_float(c["resp_body"]):
+        return False
+    for d in (c["query"], c["path"], c["headers"]):
+        for v in (d or {}).values():
+            if not isinstance(v, float) and has_float(v):
+                return False
+    return True
+
+
+def strict_eq(a, b) -> bool:
+    """Type-strict equality: in Python 0 == 0.0 == False and 1 == True - a value passed by a link must keep its type."""
+    if type(a) is not type(b):
+        return False
+    if isinstance(a, dict):
+        return a.keys() == b.keys() and all(strict_eq(a[k], b[k]) for k in a)
+    if isinstance(a, (list, tuple)):
+        return len(a) == len(b) and all(strict_eq(x, y) for x, y in zip(a, b))
+    if isinstance(a, float):
+        return repr(a) == repr(b)
+    return a == b
+
+
 def pjson(v):
     """Parsed Coq json -> Python value."""
     if v == "JNull":
@@ -88,6 +133,8 @@ def pvalue(v):
         return NOTSET
     if v == "VOpaque":
         return OPAQUE
+    if v[0] == "VFloat":
+        return float(pstr(v[1]))
     assert v[0] == "VJ", v
     return pjson(v[1])
 
@@ -108,7 +155,7 @@ def canon_impl_value(x):
         return UNRES
     if isinstance(x, NotSet):
         return NOTSET
-    if x is None or isinstance(x, (bool, int, str)):
+    if x is None or isinstance(x, (bool, int, str, float)):
         return x
     if isinstance(x, (list, tuple)):
         return [canon_impl_value(i) for i in x]
@@ -126,7 +173,8 @@ ERR_CLASS = {"RuntimeExpressionError": "ErrExpr", "UnknownToken": "ErrUnknown", 
 NAMES = ["id", "q", "X-Token", "x-token", "user_id", "a b", "n", "ü", "A", "a.b", "a$b", "a#b", "a{b", "a}b", "", "query", "body", "0"]
 PATTERNS = [r"(\d+)", r"id=(.*)", r"(a)?b", "(", "x", "(a)(b)", r"^(.*)$", r"/items/(\d+)", r"(\d{2})", "()", r"([^/]+)$", "(a}b)"]
 POINTERS = ["", "/id", "/items/0", "/items/-1", "/items/ 1", "/items/1_0", "/items/01", "/a~1b", "/m~0n", "/a~2", "/items/0/name", "/", "//", "id", "/x}y", "/x{y",
-            "/$k", "/a.b", "/a#b", "/items/-", "/items/+1", "/items/١", "/nested/k/1", "/missing", "/s/0", "/n/0", "/items/99", "/~01"]
+            "/$k", "/a.b", "/a#b", "/items/-", "/items/+1", "/items/١", "/nested/k/1", "/missing", "/s/0", "/n/0", "/items/99", "/~01",
+            "/z", "/e", "/f", "/ea", "/eo", "/n"]
 TEXTS = ["", "a", "ID_", "x.y", "a#b", "#", "u-", "-", " ", "ü", "a/b", "1", "$", "{", "}", "{}", "{b}", "$x", "user:"]
 VARS = ["$url", "$method", "$statusCode", "$request", "$response", "$urlx", "$statuscode", "$", "$Method"]
 
@@ -205,7 +253,8 @@ def gen_doc(rng, depth=0):
 
 def gen_body_doc(rng):
     d = {"id": rng.choice([7, 0, -3, "abc", None, True]), "items": [{"name": "n0"}, {"name": "n1"}, 5] + [i for i in range(rng.choice([0, 9]))],
-         "a/b": 1, "m~n": 2, "a~2": 3, "": 4, "nested": {"k": [10, 20]}, "x}y": 5, "x{y": 6, "$k": 8, "a.b": 9, "a#b": 10, "s": "str", "n": None}
+         "a/b": 1, "m~n": 2, "a~2": 3, "": 4, "nested": {"k": [10, 20]}, "x}y": 5, "x{y": 6, "$k": 8, "a.b": 9, "a#b": 10, "s": "str", "n": None,
+         "z": rng.choice([0, 0, 3]), "e": rng.choice(["", "", "x"]), "f": False, "ea": [], "eo": {}}
     if rng.random() < 0.25:
         return gen_doc(rng)
     for key in rng.sample(list(d), rng.choice([0, 0, 1, 3])):
@@ -216,6 +265,16 @@ def gen_body_doc(rng):
 HEADER_NAMES = ["X-Token", "x-token", "Location", "A", "id", "q", "n", "X-Empty"]
 
 
+# the VALUE domain of a source exchange: every JSON falsy value (and the float zeros), null, and truthy values of every type.
+# "absent" is a separate case everywhere (the name is not in the container / the container is None or empty)
+FALSY_VALUES = [0, 0.0, -0.0, "", False, None, [], {}]
+TRUTHY_VALUES = [1, -7, 12, 1.5, "s", "0", " ", "False", "null", True, [0], [""], {"k": 0}, "v1", "id=55", "ab", "b", "/items/42", "x}y", [1], "99"]
+
+
+def gen_value(rng, p_falsy=0.4):
+    return rng.choice(FALSY_VALUES) if rng.random() < p_falsy else rng.choice(TRUTHY_VALUES)
+
+
 def gen_context(rng) -> dict:
     def params(names):
         if rng.random() < 0.15:
@@ -223,14 +282,14 @@ def gen_context(rng) -> dict:
         out = {}
         for n in names:
             if rng.random() < 0.6:
-                out[n] = rng.choice(["v1", "id=55", "ab", "b", "", 12, 0, True, None, "/items/42", "x}y", [1], "99"])
+                out[n] = gen_value(rng)
         return out
 
     return {
         "method": rng.choice(["get", "post", "put", "delete", "patch"]),
         "status": rng.choice([200, 201, 204, 301, 404, 500, 100, 599]),
         "query": params(["id", "q", "a b", "n", "ü", "A", "query", "0"]),
-        "path": {**(params(["user_id", "n"]) or {}), "id": rng.choice(["p1", "id=55", "x}y", "7", 12])},
+        "path": {**(params(["user_id", "n"]) or {}), "id": rng.choice(["p1", "id=55", "x}y", "7", 12, 0, "", False, 0.0])},
         "headers": params(["X-Token", "x-token", "A", "id", "X-TOKEN"]),
         "body": rng.choice([NOTSET, None, 5, "txt"]) if rng.random() < 0.25 else gen_body_doc(rng),
         "resp_headers": {n.lower(): rng.choice([["t0k"], ["/items/42"], ["id=9", "second"], [""], ["ab"], []]) for n in HEADER_NAMES if rng.random() < 0.6},
@@ -307,7 +366,7 @@ def safe_url(output) -> str:
 
 def c_ctx(c: dict, url: str) -> str:
     def optd(d):
-        return copt(None if d is None else cdictj(d), "(list (str * json))")
+        return copt(None if d is None else cdictp(d), "(list (str * pval))")
 
     rh = clist([ctuple(cstr(k), clist([cstr(x) for x in v], "str")) for k, v in c["resp_headers"].items()], "(str * list str)")
     rb = "(@None json)" if c.get("_bad") else copt(cjson(c["resp_body"]))
@@ -456,7 +515,7 @@ def impl_evaluate(expr, output, nested=False):
 def same_outcome(impl, model) -> bool:
     if model == ("value", OPAQUE):
         return impl[0] == "value"
-    return impl == model
+    return strict_eq(impl, model)
 
 
 # ----------------------------------------------------------------------------------------
@@ -677,7 +736,9 @@ def run(chk: core.Check):
         "module re decides which patterns compile with exactly one group and what group(1) of search() is (section variables rx_ok, rx_extract)",
         "$url is whatever requests prepares for the case (field c_url of the context; foreign)",
         "header and parameter names are ASCII where case-insensitive lookup is involved (lower_ascii models str.lower)",
-        "documents contain no floats; str() of containers and of NOT_SET is outside the model (VOpaque)",
+        "JSON documents (request / response bodies) contain no floats in the model (Common.Json); a float directly held by a parameter container is modelled "
+        "(pval PFloat, identified by its repr); float members of bodies are checked against the reference evaluator only; str() of containers and of NOT_SET "
+        "is outside the model (VOpaque)",
         "the parameter strategy never draws a name listed in exclude (contract of get_parameters_strategy; needed by C10_link_values_override_generated)",
         "Hypothesis draws from Bundle only values previously added to it (a link is followed only from responses stored in its bundle)",
     ]
@@ -685,13 +746,19 @@ def run(chk: core.Check):
         "expression strings from one PRNG (VERIF_SEED): bare expressions over all sources x names (incl. stop characters . $ # { }) x pointers "
         "(escapes, lenient indices, braces) x regex extractors (valid, invalid, 0/2 groups, braces), templates of text/embedded/unbalanced braces; "
         "contexts: method x status x query/path/header dicts (missing, None, non-string) x request body (NOT_SET, scalars, documents) x response "
-        "headers/body (incl. non-JSON); non-trivial = the expression has a variable token or a brace; distinct by canonical JSON"
+        "headers/body (incl. non-JSON); parameter / header / body values are drawn from the whole value domain: every JSON falsy value (0, 0.0, -0.0, empty "
+        "string, false, null, [], {}) with probability 0.4, truthy values of every type otherwise, absent names and None containers; on top of the random "
+        "draw the product {node kind} x {value domain + absent} x {bare, regex extractor, template, nested value, nested key} is enumerated exhaustively "
+        "(stage_values); link contexts carry falsy link-source parameters; the live API is called with n=0 / s='' / an empty header / count=0 and answers "
+        "zero / empty / false members; values are compared type-strictly (0, 0.0 and False are different values); "
+        "non-trivial = the expression has a variable token or a brace; distinct by canonical JSON"
     )
     chk.proofs(["Common", "C10"])
     rng = chk.rng
     budget = 10 if chk.broken else 1
 
     _timed(chk, stage_expressions, rng, (550 if quick else 9000))
+    _timed(chk, stage_values, rng, 0)
     _timed(chk, stage_pointers, rng, (450 if quick else 6000))
     _timed(chk, stage_status, rng, (300 if quick else 3000))
     _timed(chk, stage_machine, rng, (80 if quick else 600))
@@ -776,7 +843,7 @@ def stage_expressions(chk, rng, n):
         if not same_outcome(i_eval, m):
             chk.disagree("expressions.evaluate vs Model_C10.eval_str", canon, i_eval, m)
             ref = ref_evaluate(e, c, url)
-            if ref is not None and ref != ("value", OPAQUE) and i_eval != ref and expr_region(e, c) is None:
+            if ref is not None and ref != ("value", OPAQUE) and not strict_eq(i_eval, ref) and expr_region(e, c) is None:
                 chk.fail("evaluate differs from the denotation of the expression", canon, {"implementation": i_eval, "reference": ref})
             continue
         chk.count("expr:" + i_nodes[0] + ("" if i_nodes[0] == "ok" else ":" + i_nodes[1]))
@@ -792,12 +859,117 @@ def stage_expressions(chk, rng, n):
                 stats["reference_agrees"] += 1
             continue
         stats["in_grammar"] += 1
-        if ref == ("value", OPAQUE) or i_eval == ref:
+        if ref == ("value", OPAQUE) or strict_eq(i_eval, ref):
             stats["reference_agrees"] += 1
+            if i_eval[0] == "value" and i_eval[1] in FALSY_VALUES and i_eval[1] is not None and ("$request" in e or "$response" in e):
+                chk.count("expr:falsy_value_passed")
             continue
         region = expr_region(e, c)
         chk.fail("evaluate differs from the denotation of the expression", canon, {"implementation": i_eval, "reference": ref}, region=region)
     chk.stages["correspondence_expressions"] = {**stats, "corpus": n_corpus}
+
+
+
+# ----------------------------------------------------------------------------------------
+# the value domain, systematically (added after the seeded regression C10_c_falsy_request_value_unresolvable: `value or UNRESOLVABLE`)
+# ----------------------------------------------------------------------------------------
+ABSENT = "<ABSENT>"
+VALUE_DOMAIN = FALSY_VALUES + [1, -7, 1.5, "s", "0", " ", "False", True, [0], {"k": 0}, ABSENT]
+
+
+def value_sources(v):
+    """Every way a source exchange can carry the value v (ABSENT: does not carry it) together with the expression that reads it.
+    Yields (source kind, bare expression, context)."""
+    def ctx(**kw):
+        return {**BASE_CTX, **kw}
+
+    absent = v == ABSENT and isinstance(v, str)
+    yield "request.query", "$request.query.p", ctx(query={"o": "ov"} if absent else {"o": "ov", "p": v})
+    yield "request.path", "$request.path.p", ctx(path={"id": "p1"} if absent else {"id": "p1", "p": v})
+    yield "request.header", "$request.header.x-p", ctx(headers={"X-O": "ov"} if absent else {"X-O": "ov", "X-P": v})
+    yield "request.body#ptr", "$request.body#/p", ctx(body={"q": 1} if absent else {"q": 1, "p": v})
+    yield "request.body#ptr[i]", "$request.body#/a/1", ctx(body={"a": [5]} if absent else {"a": [5, v]})
+    yield "request.body", "$request.body", ctx(body=NOTSET if absent else v)
+    yield "response.body#ptr", "$response.body#/p", ctx(resp_body={"q": 1} if absent else {"q": 1, "p": v})
+    yield "response.body#ptr/deep", "$response.body#/d/0/p", ctx(resp_body={"d": [{}]} if absent else {"d": [{"p": v}]})
+    if not absent:
+        yield "response.body", "$response.body", ctx(resp_body=v)
+    if absent or isinstance(v, str):
+        yield "response.header", "$response.header.X-P", ctx(resp_headers={"x-o": ["ov"]} if absent else {"x-o": ["ov"], "x-p": [v, "second"]})
+    if absent:
+        # the container itself missing or empty
+        yield "request.query", "$request.query.p", ctx(query=None)
+        yield "request.query", "$request.query.p", ctx(query={})
+        yield "request.header", "$request.header.x-p", ctx(headers=None)
+        yield "request.path", "$request.path.p", ctx(path={})
+
+
+def value_forms(kind, bare):
+    """(form, expression or nested body, evaluate_nested)"""
+    yield "bare", bare, False
+    if "body" not in kind:
+        yield "regex_any", bare + "#regex:(.*)", False
+        yield "regex_opt", bare + "#regex:^(s?)", False
+    if kind not in ("request.body", "response.body"):
+        yield "template", "a-{" + bare + "}", False
+        yield "template2", "{" + bare + "}{" + bare + "}", False
+        yield "nested_key", {bare: "v", "k": 1}, True
+    yield "nested_value", {"k": [bare], "lit": 0}, True
+
+
+def stage_values(chk, rng, n):
+    """Every node kind x every value of VALUE_DOMAIN (all JSON falsy values, float zeros, null, truthy values of every type, absent)
+    x every form (bare, regex extractor, template, nested value, nested key): implementation vs model (where the model can hold the
+    value: Common.Json has no floats) and vs the independent reference.  n is ignored: the product is exhaustive."""
+    cases = []
+    for v in VALUE_DOMAIN:
+        for kind, bare, c in value_sources(v):
+            for form, e, nested in value_forms(kind, bare):
+                cases.append((v, kind, form, e, nested, c))
+    exprs, prepared = [], []
+    for v, kind, form, e, nested, c in cases:
+        output = make_output(c)
+        url = safe_url(output) or "http://unused.invalid/"
+        prepared.append((output, url))
+        if not model_applicable(c):
+            continue
+        ok, table = regex_tables(list(all_strings(e)), c)
+        rx_ok, rx_ex = c_rx(ok, table)
+        exprs.append(f"evaluate {rx_ok} {rx_ex} {c_ctx(c, url)} {cjson(e)} {cbool(nested)}")
+    model = iter(coq_eval(exprs))
+    stats = {"cases": len(cases), "values": len(VALUE_DOMAIN), "model_compared": 0, "model_not_applicable_float_in_document": 0, "oracle_applied": 0,
+             "falsy_value_passed_as_is": 0, "unresolvable": 0, "raised": 0}
+    for (v, kind, form, e, nested, c), (output, url) in zip(cases, prepared):
+        canon = {"value": v, "source": kind, "form": form, "expr": e, "nested": nested, "ctx": {k: x for k, x in c.items() if BASE_CTX.get(k, ABSENT) != x}}
+        chk.seen(canon, True)
+        impl = impl_evaluate(e, output, nested=nested)
+        if model_applicable(c):
+            mo = poutcome(next(model))
+            stats["model_compared"] += 1
+            tie_ok = strict_eq(mo, impl) or (mo[0] == "value" and impl[0] == "value" and opaque_eq(mo[1], impl[1]))
+            if not tie_ok:
+                chk.disagree("expressions.evaluate vs Model_C10.evaluate on the value domain", canon, impl, mo)
+        else:
+            stats["model_not_applicable_float_in_document"] += 1
+        # ---- oracle: the reference evaluator (absent -> UNRESOLVABLE; present -> that value, whatever its truthiness)
+        try:
+            ref = ("value", ref_nested(e, c, url)) if nested else ref_evaluate(e, c, url)
+        except _Skip:
+            ref = None
+        if impl[0] == "raise":
+            stats["raised"] += 1
+        elif impl == ("value", UNRES):
+            stats["unresolvable"] += 1
+        if ref is None or ref == ("value", OPAQUE):
+            continue
+        stats["oracle_applied"] += 1
+        if not strict_eq(impl, ref):
+            chk.fail("evaluate differs from the denotation of the expression on the value domain (falsy / null / absent / truthy source values)",
+                     canon, {"implementation": impl, "reference": ref})
+        elif form == "bare" and v in FALSY_VALUES and v is not None and not (isinstance(v, str) and v == ABSENT):
+            stats["falsy_value_passed_as_is"] += 1
+            chk.count(f"values:{kind}:falsy_passed")
+    chk.stages["correspondence_value_domain"] = stats
 
 
 # ----------------------------------------------------------------------------------------
@@ -1244,7 +1416,7 @@ def ref_nested(e, c, url):
                 kv = "true" if kv else "false"
             elif kv is None:
                 kv = "null"
-            elif isinstance(kv, int):
+            elif isinstance(kv, (int, float)):
                 kv = str(kv)
             elif not isinstance(kv, str) or kv == NOTSET:
                 raise _Skip
@@ -1263,7 +1435,10 @@ def stage_nested(chk, rng, n):
     cases += [(e, BASE_CTX) for e in NESTED_FIXED]
     n_fixed = len(cases)
     ctxs = [BASE_CTX, {**BASE_CTX, "resp_body": {"id": "abc", "items": [1], "s": "kk"}, "status": 404, "method": "put"},
-            {**BASE_CTX, "resp_body": {"id": None, "items": [{"name": "n0"}, {"name": 5}, [1]], "a/b": {"z": 1}, "s": 3}, "resp_headers": {}, "query": None, "body": NOTSET}]
+            {**BASE_CTX, "resp_body": {"id": None, "items": [{"name": "n0"}, {"name": 5}, [1]], "a/b": {"z": 1}, "s": 3}, "resp_headers": {}, "query": None, "body": NOTSET},
+            # falsy leaves: the query parameter, the id and the member s are present but falsy
+            {**BASE_CTX, "query": {"q": 0, "id": ""}, "resp_body": {"id": 0, "items": [{"name": ""}, {"name": False}, 0], "a/b": [], "s": ""}, "body": {"items": [{"name": 0}]}},
+            {**BASE_CTX, "query": {"q": "", "id": False}, "resp_body": {"id": False, "items": [{"name": "n0"}, {"name": {}}, None], "s": 0}, "resp_headers": {"location": [""]}}]
     while len(cases) < n + n_fixed:
         mode = rng.random()
         p_unres, p_odd = (0.0, 0.0) if mode < 0.45 else (0.12, 0.0) if mode < 0.8 else (0.08, 0.12)
@@ -1293,7 +1468,7 @@ def stage_nested(chk, rng, n):
         chk.count(f"nested:depth_{min(d, 5)}{'+' if d >= 5 else ''}")
         impl = impl_evaluate(e, output, nested=True)
         mo = poutcome(m)
-        tie_ok = mo == impl or (mo[0] == "value" and impl[0] == "value" and opaque_eq(mo[1], impl[1]))
+        tie_ok = strict_eq(mo, impl) or (mo[0] == "value" and impl[0] == "value" and opaque_eq(mo[1], impl[1]))
         if not tie_ok:
             chk.disagree("expressions.evaluate(evaluate_nested=True) vs Model_C10.evaluate", canon, impl, mo)
         if impl[0] != "value":
@@ -1308,7 +1483,7 @@ def stage_nested(chk, rng, n):
         except _Skip:
             continue
         stats["oracle_applied"] += 1
-        if impl != ("value", ref):
+        if not strict_eq(impl, ("value", ref)):
             chk.fail("a nested link body is not its expressions' denotation at every depth (unresolvable iff some leaf is)", canon,
                      {"implementation": impl, "reference": ref})
         elif stats["oracle_applied"] % 60 == 1:
@@ -1353,6 +1528,12 @@ def link_schema(link_def, with_target_body=True):
                         {"name": "q", "in": "query", "schema": {"type": "string"}},
                         {"name": "id", "in": "query", "schema": {"type": "string"}},
                         {"name": "X-Token", "in": "header", "schema": {"type": "string"}},
+                        {"name": "X-E", "in": "header", "schema": {"type": "string"}},
+                        {"name": "z", "in": "query", "schema": {"type": "integer"}},
+                        {"name": "e", "in": "query", "schema": {"type": "string"}},
+                        {"name": "f", "in": "query", "schema": {"type": "boolean"}},
+                        {"name": "fl", "in": "query", "schema": {"type": "number"}},
+                        {"name": "arr", "in": "query", "schema": {"type": "array", "items": {"type": "integer"}}},
                     ],
                     "requestBody": {"content": {"application/json": {"schema": {}}}},
                     "responses": {"201": {"description": "ok", "links": {"L": link_def}}},
@@ -1369,7 +1550,11 @@ def link_schema(link_def, with_target_body=True):
 PARAM_EXPRS = ["$response.body#/id", "$response.body#/items/0/name", "$response.body#/missing", "$response.body#/n", "$response.body#/items/-1", "$response.body",
                "$request.body#/id", "$request.body", "$request.query.q", "$request.path.id", "$request.header.X-Token", "$response.header.Location",
                "$response.header.Location#regex:/items/(\\d+)", "$request.query.q#regex:id=(.*)", "$response.header.Missing", "$statusCode", "$method", "$url",
-               "u-{$response.body#/id}", "{$response.body#/id}-{$request.query.q}", "x{$response.body#/missing}", "const", "a#b", "", 5, True, None, ["$statusCode"], {"k": "$method"}]
+               "u-{$response.body#/id}", "{$response.body#/id}-{$request.query.q}", "x{$response.body#/missing}", "const", "a#b", "", 5, True, None, ["$statusCode"], {"k": "$method"},
+               # sources whose value is often falsy in the contexts below (0, 0.0, "", false, [], null) or absent
+               "$request.query.z", "$request.query.e", "$request.query.f", "$request.query.fl", "$request.query.arr", "$request.header.X-E", "$request.header.x-e",
+               "$request.query.z", "$request.query.e", "$request.query.f", "$request.path.id", "$request.body#/z", "$response.body#/z", "$response.body#/e", "$response.body#/f",
+               "$response.body#/ea", "n{$request.query.z}-{$request.query.e}", "$request.query.e#regex:(.*)", "$response.header.X-Empty", 0, False]
 BODY_EXPRS = PARAM_EXPRS + [{"ref": "$response.body#/id", "lit": 1}, {"$statusCode": "$method"}, {"a": "$response.body#/id"}, {"a": {"deep": ["$response.body#/items/1/name", 2]}},
                             {"x": "$response.body#/missing"}, {"$response.body#/missing": 1}, ["$response.body#/id", "$response.body#/n"], {"bad": "$request.foo"}, "$request.foo",
                             {"$response.body#/id": 1, "7": 2}, {"{$response.body#/n}": 1}, {"$response.body#/items": 1},
@@ -1473,13 +1658,28 @@ def stage_links(chk, rng, n):
     cases = [(c["link"], {**BASE_CTX, **c.get("ctx", {})}) for c in corpus_cases() if c.get("kind") == "link"]
     n_corpus = len(cases)
     ctxs = []
-    for _ in range(8):
+    for i in range(12):
         c = gen_context(rng)
         c["method"] = "post"
         c["status"] = 201
-        for key in ("path", "query", "headers"):
-            c[key] = {k: v for k, v in (c[key] or {}).items() if isinstance(v, str) and v != ""} or None
-        c["path"] = {"id": "p1"}
+        if i % 3 == 0:
+            # plain contexts: non-empty strings only
+            for key in ("path", "query", "headers"):
+                c[key] = {k: v for k, v in (c[key] or {}).items() if isinstance(v, str) and v != ""} or None
+            c["path"] = {"id": "p1"}
+        else:
+            # source requests whose link-source parameters are present but FALSY (0, 0.0, "", false, [], null), truthy, or absent
+            q = {k: v for k, v in (c["query"] or {}).items() if not has_float(v) or isinstance(v, float)}
+            for name, pool in (("z", [0, 0, 0.0, 3, None]), ("e", ["", "", "x"]), ("f", [False, False, True]), ("fl", [0.0, -0.0, 1.5, 0]),
+                               ("arr", [[], [], [0]]), ("q", ["", "id=55", 0, "ab"]), ("id", ["", 0, "v1"])):
+                if rng.random() < 0.8:
+                    q[name] = rng.choice(pool)
+            c["query"] = q
+            c["path"] = {"id": rng.choice(["p1", 0, "", False, 7, 0.0])}
+            c["headers"] = {"X-Token": rng.choice(["ab", "", "id=55"])}
+            if rng.random() < 0.8:
+                c["headers"][rng.choice(["X-E", "x-e"])] = rng.choice(["", "", "e", 0])
+            c["resp_headers"] = {**c["resp_headers"], "x-empty": [rng.choice(["", "", "v"])]}
         if c["resp_body"] is None:
             c["_bad"] = True
         ctxs.append(c)
@@ -1492,9 +1692,15 @@ def stage_links(chk, rng, n):
     for d, c in cases:
         c = {**c}
         output = make_output_for_link(c)
-        url = safe_url(output) or "http://127.0.0.1:1/"
-        outputs.append((output, url))
         strings = list(all_strings(list(d.get("parameters", {}).values()))) + list(all_strings(d.get("requestBody")))
+        url = safe_url(output)
+        if url is None and any("$url" in x for x in strings):
+            # requests refuses to prepare this source request (a non-string header value): $url raises, outside the model
+            outputs.append(None)
+            exprs.append("(@nil (str * list (str * xval)), @None xval, @nil (option dict), VUnres)")
+            continue
+        url = url or "http://127.0.0.1:1/"
+        outputs.append((output, url))
         ok, table = regex_tables(strings, c)
         rx_ok, rx_ex = c_rx(ok, table)
         L = c_link(d)
@@ -1508,7 +1714,11 @@ def stage_links(chk, rng, n):
         exprs.append(f"(extract_parameters {rx_ok} {rx_ex} {cx} {L}, extract_body {rx_ok} {rx_ex} {cx} {L}, {clist(gens)}, {fb})")
     model = coq_eval(exprs)
     stats = {"cases": 0, "invalid_links": 0, "drawn": 0, "corpus": n_corpus}
-    for (d, c), (output, url), (m_params, m_body, m_final, m_fbody) in zip(cases, outputs, model):
+    for (d, c), prep, (m_params, m_body, m_final, m_fbody) in zip(cases, outputs, model):
+        if prep is None:
+            chk.count("link:skipped_url")
+            continue
+        output, url = prep
         canon = {"link": d, "ctx": c}
         stats["cases"] += 1
         chk.seen(canon, bool(d.get("parameters")) or "requestBody" in d)
@@ -1526,12 +1736,43 @@ def stage_links(chk, rng, n):
         tr = link.extract(output)
         i_p, i_b = canon_extracted(tr)
         m_b = None if m_body is None else ("set", p_xval(m_body[1]))
-        if {k: dict(v) for k, v in i_p.items()} != m_p and not opaque_eq(m_p, i_p):
+        tie_broken = False      # the oracles below still run on the implementation: a broken tie must come with a concrete failing input
+        if not strict_eq({k: dict(v) for k, v in i_p.items()}, m_p) and not opaque_eq(m_p, i_p):
             chk.disagree("OpenApiLink.extract_parameters vs Model_C10.extract_parameters", canon, i_p, m_p)
-            continue
-        if not (m_b == i_b or (m_b and i_b and opaque_eq(m_b[1], i_b[1]))):
+            tie_broken = True
+        elif not (strict_eq(m_b, i_b) or (m_b and i_b and opaque_eq(m_b[1], i_b[1]))):
             chk.disagree("OpenApiLink.extract_body vs Model_C10.extract_body", canon, i_b, m_b)
-            continue
+            tie_broken = True
+        # the denotation of the link body (string expressions only; nested bodies have their own stage)
+        if i_b is not None and isinstance(d.get("requestBody"), str):
+            r = ref_evaluate(d["requestBody"], c, url)
+            if r is not None and r[0] == "value" and r[1] != OPAQUE and expr_region(d["requestBody"], c) is None and not strict_eq(i_b[1], r[1]):
+                chk.fail("the value extracted for the link body is not what its expression denotes on the source exchange", canon,
+                         {"expression": d["requestBody"], "extracted": i_b[1], "denoted": r[1]})
+        # ---- oracle (independent of the model AND of the implementation's own extraction): what each parameter expression denotes on
+        # the source exchange - a present value, falsy or not, is that value; absent / null is UNRESOLVABLE
+        denoted = {}
+        for pname, e in d.get("parameters", {}).items():
+            container, nm = container_of(pname)
+            exp = None
+            if isinstance(e, str):
+                r = ref_evaluate(e, c, url)
+                if r is not None and r[0] == "value" and r[1] != OPAQUE and expr_region(e, c) is None:
+                    exp = ("value", r[1])
+            elif not isinstance(e, (list, dict)):
+                exp = ("value", e)
+            denoted.setdefault((container, nm.lower() if container == "headers" else nm), []).append((nm, e, exp))
+        for (container, _), entries in denoted.items():
+            nm, e, exp = entries[-1]
+            if exp is None or sum(1 for x in entries if x[0] == nm) != len(entries):
+                continue
+            stats["denotation_oracle"] = stats.get("denotation_oracle", 0) + 1
+            got = i_p.get(container, {}).get(nm, "<ABSENT>")
+            if not strict_eq(got, exp[1]):
+                chk.fail("the value extracted for a link parameter is not what its expression denotes on the source exchange", canon,
+                         {"parameter": f"{container}.{nm}", "expression": e, "extracted": got, "denoted": exp[1]})
+            elif exp[1] in FALSY_VALUES and exp[1] is not None and isinstance(e, str) and "$" in e:
+                chk.count("link:falsy_value_extracted")
         # the derived case
         try:
             step = draw_step_input(schema, link, output)
@@ -1557,13 +1798,13 @@ def stage_links(chk, rng, n):
                 ok_final = ok_final and a == b
                 continue
             a = {k: v for k, v in a.items() if not (container == "headers" and k.lower() in ("user-agent", "x-schemathesis-testcaseid"))}
-            if set(a) != set(b) or any(not (b[k] == OPAQUE or a[k] == b[k]) for k in b):
+            if set(a) != set(b) or any(not (b[k] == OPAQUE or strict_eq(a[k], b[k])) for k in b):
                 ok_final = False
-        if not ok_final:
+        if not ok_final and not tie_broken:
             chk.disagree("into_step_input parameters vs Model_C10.final_container", canon, impl_final, model_final)
         i_fb = canon_impl_value(case.body)
         m_fb = pvalue(m_fbody)
-        if not opaque_eq(m_fb, i_fb):
+        if not opaque_eq(m_fb, i_fb) and not tie_broken:
             chk.disagree("into_step_input body vs Model_C10.final_body", canon, i_fb, m_fb)
         # ---- oracle on the body: the link value replaces the generated body, or (merge, both objects) its members win
         if i_b is not None and i_b[1] not in (UNRES, "<ERR>"):
@@ -1597,9 +1838,29 @@ def stage_links(chk, rng, n):
             if not sendable:
                 if sent != gen_v:
                     chk.fail("an unresolvable link value is not replaced by the generated one", canon, {"name": nm, "sent": sent})
-            elif sent != sendable[-1]:
+            elif not strict_eq(sent, sendable[-1]):
                 region = "header_case_override" if container == "headers" and sent == gen_v else None
                 chk.fail("link value does not override the generated one", canon, {"name": nm, "link_value": sendable[-1], "sent": sent}, region=region)
+        # the same against the denotation: the derived request carries exactly the value the link expression denotes (falsy or not);
+        # only an absent / null source value leaves the generated one in place
+        for (container, key_nm), entries in denoted.items():
+            nm, e, exp = entries[-1]
+            if exp is None or sum(1 for x in entries if x[0] == nm) != len(entries) or container is None:
+                continue
+            final = impl_final[container] or {}
+            gen_map = GEN_CONST[container]
+            if container == "headers":
+                final = {k.lower(): v for k, v in final.items()}
+                gen_map = {k.lower(): v for k, v in gen_map.items()}
+            gen_v = gen_map.get(key_nm, "<ABSENT>")
+            sent = final.get(key_nm, "<ABSENT>")
+            want = gen_v if exp[1] is None or exp[1] == UNRES else exp[1]
+            if not strict_eq(sent, want):
+                region = "header_case_override" if container == "headers" and strict_eq(sent, gen_v) else None
+                chk.fail("the derived request does not carry the value the link expression denotes on the source request / response", canon,
+                         {"parameter": f"{container}.{nm}", "expression": e, "denoted": exp[1], "sent": sent}, region=region)
+            elif want is not gen_v and exp[1] in FALSY_VALUES:
+                chk.count("link:falsy_value_sent")
         if stats["drawn"] % 20 == 1:
             chk.sample({"link": d, "extracted": i_p, "body": i_b, "derived_case": impl_final, "derived_body": i_fb})
     chk.stages["correspondence_links"] = stats
@@ -1633,9 +1894,18 @@ def make_output_for_link(c):
 GEN_ID = 424242
 
 
+# link A parameters whose source value is FALSY in about half of the source requests (0, "", false; an empty header; falsy members of the
+# request / response body): target query name -> expression
+LIVE_FALSY_LINKS = {
+    "rn": "$request.query.n", "rs": "$request.query.s", "rbool": "$request.query.b", "rh": "$request.header.X-H",
+    "rc": "$request.body#/count", "bz": "$response.body#/zero", "be": "$response.body#/empty", "bf": "$response.body#/flag",
+    "tz": "n{$request.query.n}-{$request.query.s}|", "he": "$response.header.X-Empty",
+}
+
+
 def live_schema():
-    def q(name, enum=None, required=False):
-        sch = {"type": "string"}
+    def q(name, enum=None, required=False, type_="string"):
+        sch = {"type": type_}
         if enum:
             sch["enum"] = enum
         return {"name": name, "in": "query", "required": required, "schema": sch}
@@ -1647,9 +1917,11 @@ def live_schema():
             "/src": {
                 "post": {
                     "operationId": "createSrc",
-                    "parameters": [q("q", ["qv1", "qv2", "q v/3"], True)],
+                    "parameters": [q("q", ["qv1", "qv2", "q v/3"], True), q("n", [0, 5], True, "integer"), q("s", ["", "sv"], True), q("b", [False, True], True, "boolean"),
+                                   {"name": "X-H", "in": "header", "required": True, "schema": {"type": "string", "enum": ["", "hv"]}}],
                     "requestBody": {"required": True, "content": {"application/json": {"schema": {
-                        "type": "object", "properties": {"name": {"type": "string", "enum": ["alice", "bob"]}}, "required": ["name"], "additionalProperties": False}}}},
+                        "type": "object", "properties": {"name": {"type": "string", "enum": ["alice", "bob"]}, "count": {"type": "integer", "enum": [0, 3]}},
+                        "required": ["name", "count"], "additionalProperties": False}}}},
                     "responses": {
                         "201": {"description": "created", "links": {
                             "A": {"operationId": "getA", "parameters": {
@@ -1661,6 +1933,7 @@ def live_schema():
                                 "query.deep": "$response.body#/items/1/na~1me",
                                 "query.rb": "$request.body#/name",
                                 "query.m": "$method",
+                                **{"query." + k: e for k, e in LIVE_FALSY_LINKS.items()},
                             }}}},
                         "4XX": {"description": "client error", "links": {
                             "B": {"operationId": "putB", "requestBody": {"code": "$statusCode", "err": "$response.body#/error", "m": "$method", "lit": 5,
@@ -1674,7 +1947,8 @@ def live_schema():
             },
             "/ta/{id}": {"get": {"operationId": "getA", "parameters": [
                 {"name": "id", "in": "path", "required": True, "schema": {"type": "integer", "enum": [GEN_ID]}},
-                q("tok", ["GEN"]), q("rq", ["GEN"]), q("emb", ["GEN"]), q("rx", ["GEN"]), q("deep", ["GEN"]), q("rb", ["GEN"]), q("m", ["GEN"]), q("own", ["OWN"], True)],
+                q("tok", ["GEN"]), q("rq", ["GEN"]), q("emb", ["GEN"]), q("rx", ["GEN"]), q("deep", ["GEN"]), q("rb", ["GEN"]), q("m", ["GEN"]), q("own", ["OWN"], True),
+                *[q(k, ["GEN"], True) for k in LIVE_FALSY_LINKS]],
                 "responses": {"200": {"description": "ok"}}}},
             "/tb": {"put": {"operationId": "putB", "requestBody": {"required": True, "content": {"application/json": {"schema": {
                 "type": "object", "properties": {"gen": {"type": "string", "enum": ["g"]}}, "required": ["gen"], "additionalProperties": False}}}},
@@ -1733,7 +2007,7 @@ def stage_live(chk, rng, runs):
                     kind = script[len(exchanges) % len(script)]
                     status = 201 if kind == "201-noid" else kind
                     if status == 201:
-                        body = {"id": n, "items": [{"na/me": "n0"}, {"na/me": f"n1-{n}"}]}
+                        body = {"id": n, "items": [{"na/me": "n0"}, {"na/me": f"n1-{n}"}], "zero": 0 if n % 3 else 4, "empty": "" if n % 2 else "ne", "flag": bool(n % 5 == 0)}
                         if kind == "201-noid":
                             del body["id"]
                     elif 400 <= status < 500:
@@ -1741,7 +2015,7 @@ def stage_live(chk, rng, runs):
                     else:
                         body = {"w": f"w{n}"} if n % 2 else {}
                     exchanges.append({"n": n, "status": status, "body": body, "request": item})
-                return status, [("Content-Type", "application/json"), ("X-Token", f"t{n}"), ("Location", f"/src/{n}")], json.dumps(body).encode()
+                return status, [("Content-Type", "application/json"), ("X-Token", f"t{n}"), ("Location", f"/src/{n}"), ("X-Empty", "" if n % 4 else "xe")], json.dumps(body).encode()
             return 200, [("Content-Type", "application/json")], b"{}"
 
         try:
@@ -1752,8 +2026,19 @@ def stage_live(chk, rng, runs):
         stats["runs"] += 1
         stats["source_exchanges"] += len(exchanges)
 
-        def src_q(ex):
-            return parse_qs(urlsplit(ex["request"]["target"]).query, keep_blank_values=True).get("q", [None])[0]
+        def src_q(ex, name="q"):
+            return parse_qs(urlsplit(ex["request"]["target"]).query, keep_blank_values=True).get(name, [None])[0]
+
+        def src_header(ex, name):
+            for k, v in ex["request"]["headers"]:
+                if k.lower() == name.lower():
+                    return v
+            return None
+
+        def wire(v):
+            """How requests writes a Python scalar taken from a JSON document into a query string: str(v) (False -> 'False'; generated
+            booleans, by contrast, are already the strings true/false in the case).  Serialisation is not part of this property."""
+            return str(v)
 
         def src_body(ex):
             try:
@@ -1773,6 +2058,7 @@ def stage_live(chk, rng, runs):
             stats["link_requests"] += 1
             chk.seen({"live": canon}, True)
             explained = False
+            closest = None       # for the report: the source exchange the request most probably derives from, and what differs
             if path.startswith("/ta/"):
                 link = "A"
                 got_id = unquote(path[len("/ta/"):])
@@ -1787,7 +2073,24 @@ def stage_live(chk, rng, runs):
                     want = {"tok": f"t{n}", "rq": src_q(ex), "rx": str(n), "deep": f"n1-{n}", "rb": (src_body(ex) or {}).get("name"), "m": "POST"}
                     if has_id:
                         want["emb"] = f"u-{n}-201"
+                    # the falsy-prone sources: the derived request carries exactly what the source request / response carried - a 0, an
+                    # empty string or a false is a value, not a missing one (a parameter the source request did not send at all stays generated)
+                    sb = src_body(ex) or {}
+                    want.update({"rn": src_q(ex, "n"), "rs": src_q(ex, "s"), "rbool": src_q(ex, "b"), "rh": src_header(ex, "X-H"),
+                                 "rc": wire(sb["count"]) if "count" in sb else "GEN", "bz": wire(ex["body"]["zero"]), "be": ex["body"]["empty"],
+                                 "bf": wire(ex["body"]["flag"]), "he": "" if n % 4 else "xe"})
+                    want = {k: ("GEN" if v is None else v) for k, v in want.items()}
+                    if src_q(ex, "n") is not None and src_q(ex, "s") is not None:
+                        want["tz"] = f"n{src_q(ex, 'n')}-{src_q(ex, 's')}|"
                     ok = all(qs.get(k) == v for k, v in want.items()) and got_id == (str(n) if has_id else str(GEN_ID))
+                    if not ok and (got_id == str(n) or qs.get("tok") == f"t{n}"):
+                        closest = {"source_exchange": {"n": n, "request": ex["request"]["target"], "X-H": src_header(ex, "X-H"), "request_body": src_body(ex),
+                                                       "response_body": ex["body"]},
+                                   "differs (name: denoted, sent)": {k: [v, qs.get(k)] for k, v in want.items() if qs.get(k) != v}}
+                    if ok:
+                        for k in ("rn", "rs", "rbool", "rh", "rc", "bz", "be", "bf", "he"):
+                            if want[k] in ("0", "", "false"):
+                                stats["falsy_values_carried"] = stats.get("falsy_values_carried", 0) + 1
                     if not has_id:
                         ok = ok and qs.get("emb") in (None, "GEN")
                     if ok:
@@ -1825,7 +2128,7 @@ def stage_live(chk, rng, runs):
             stats["by_link"][link] = stats["by_link"].get(link, 0) + 1
             if not explained:
                 chk.fail(f"request derived through link {link} is not what the link's expressions denote on any source exchange with a matching status", canon,
-                         {"exchanges": [{k: ex[k] for k in ("n", "status", "body")} for ex in exchanges][:8]})
+                         closest or {"exchanges": [{k: ex[k] for k in ("n", "status", "body")} for ex in exchanges][:8]})
             elif stats["link_requests"] % 25 == 1:
                 chk.sample({"live_link": link, "request": canon})
     chk.stages["live_state_machine"] = stats
@@ -1870,7 +2173,7 @@ def witness_fails(w) -> bool:
         ref = ref_evaluate(w["expr"], c, url)
         if ref is None:
             return impl[0] != "parse_error"
-        return impl != ref
+        return not strict_eq(impl, ref)
     return False
 
 
